@@ -41,9 +41,8 @@ void ApiRun::arm_faults(const Op &o) { if (o.fault_kind >= 1 && o.fault_kind <= 
 void ApiRun::disarm_faults() { g_disk.disarm(); disk_plan_active = false; }
 bool ApiRun::fault_fired() const { return g_disk.fired; }
 void ApiRun::after_mutation(int cif, bool failed) {
-    static long counter = 0;
-    ++counter;
-    if (failed || dump_every == 1 || (dump_every > 1 && counter % dump_every == 0)) check_dump(cif, failed ? "after a failed call" : "after the call");
+    ++mutation_counter;
+    if (failed || dump_every == 1 || (dump_every > 1 && mutation_counter % dump_every == 0)) check_dump(cif, failed ? "after a failed call" : "after the call");
 }
 bool ApiRun::would_strand(MLoop *l, const ustr &norm) {
     if (l->names.size() <= 1) return false;     // the whole loop goes away
